@@ -119,20 +119,47 @@ def subnormal(t, p):
 # area kinds: bit0 read callback, bit1 write callback, bit2 memory backed
 MEM, CUSTOM, MEM_NOWRITE, MEM_NOREAD = 7, 3, 5, 6
 
+TOP = False          # while set (see at_top) every table is shifted so that its highest area ends at 2^32 (last word at 0xffffffff)
+SPACE = 2**32
+
 class Table:
     def __init__(self, be, areas, entries, words=None):
         self.be = be; self.areas = areas; self.entries = entries
         self.words = words if words is not None else [0] * sum(a[1] for a in areas)
+        self.top = TOP
     def line(self, ops):
-        fa = [x for a in self.areas for x in a]
-        fe = [x for e in self.entries for x in e]
+        d = 0
+        if self.top and self.areas:
+            d = SPACE - max(a[0] + max(a[1], 1) for a in self.areas)      # every base stays representable (zero-size areas of C04)
+        areas = [(a[0] + d,) + tuple(a[1:]) for a in self.areas]
+        # a register whose address is not representable cannot be described (only malformed C04 tables have such entries)
+        entries = [tuple(e[:2]) + (e[2] + d,) + tuple(e[3:]) for e in self.entries if e[2] + d < SPACE]
+        fa = [x for a in areas for x in a]
+        fe = [x for e in entries for x in e]
         fo = []
         for o in ops:
+            if d and o[0] in (6, 7, 9):
+                # block write / block read / iteration: (op, address, length, ...); requests that leave the address space are not generated
+                if o[1] + d >= SPACE or o[1] + d + o[2] > SPACE:
+                    continue
+                o = (o[0], o[1] + d) + tuple(o[2:])
             fo += [o[0], len(o) - 1] + list(o[1:])
         return 'reg.run %d %s %s %s %s' % (self.be, lst(fa), lst(self.words), lst(fe), lst(fo))
     def window(self):
         lo = min(a[0] for a in self.areas); hi = max(a[0] + a[1] for a in self.areas)
         return max(0, lo - 2), hi + 2
+
+def at_top(genf, rng, tier, limit):
+    """the first `limit` cases of generator genf, with every table moved to the top of the address space (highest area ends at 2^32)"""
+    global TOP
+    import itertools, random
+    sub = random.Random(rng.randrange(2**32))
+    TOP = True
+    try:
+        lines = list(itertools.islice(genf(sub, tier), limit))
+    finally:
+        TOP = False
+    return lines
 
 def family_table(rng, nareas=None, regs=True):
     """a well-formed table of the small-scope family: 1-3 areas (adjacent or with gaps; RW/RO/WO; memory or callback backed),
